@@ -166,6 +166,15 @@ def handle (toks : List String) (impl : String) : Verdict :=
     let factToks := rest.takeWhile (· ≠ "|")
     let n := factToks.length
     let parsed := (factToks.zipIdx).mapM fun (t, i) => parseFacts (kind = "rt" && i + 1 = n) t
+    -- `<n>+h` is the instant n + 0.5 s. Certificate times are whole seconds, so `n + 0.5 < notBefore` iff
+    -- `n < notBefore` and `n + 0.5 > notAfter` iff `n > notAfter - 1`: the same verdict as evaluating at `n`
+    -- a certificate whose notAfter is one second earlier.
+    let half := now.endsWith "+h"
+    let now := if half then (now.dropEnd 2).toString else now
+    let parsed := if !half then parsed else parsed.map fun raws =>
+      match raws.reverse with
+      | last :: rest => (({ last with facts := { last.facts with validity := { last.facts.validity with na := last.facts.validity.na - 1 } } }) :: rest).reverse
+      | [] => raws
     match parseInt now, parsed with
     | some now, some raws =>
       if raws.isEmpty then badOp "no facts" else
